@@ -200,6 +200,9 @@ class Interp(Engine):
                 return
             if getattr(v, "frozen", False) and not self.spec_mode:
                 self.prove(self.site("frame-attr-write"), False, "frame", f"write to field {name} of an input object")
+            rec = getattr(self, "record_attr_store", None)  # verify.Verifier: which EXTRA attributes a carrier keeps on its inputs (option extra_attrs_arbitrary)
+            if rec is not None and not self.spec_mode:
+                rec(v, name, val)
             v.fields[name] = val
             return
         h = getattr(self, "ref_attr_hook", None)
@@ -659,6 +662,11 @@ class Interp(Engine):
         # their repository AST (inlined) even though a modular contract exists -- always sound, used where the inputs are
         # concrete enough (fixed topology) for the real code to be executed symbolically
         force_inline = cc is not None and any(func.key.endswith(sfx) for sfx in cc.options.get("inline_calls", ()))
+        if cc is not None and not force_inline and cc.options.get("inline_calls"):
+            # an override that carries the contract of the method it overrides (vcheck.inherit_overrides) is inlined where that method is
+            inh = self.registry.get(func.key)
+            base = inh.options.get("inherited_from") if inh is not None else None
+            force_inline = base is not None and any(base.endswith(sfx) for sfx in cc.options["inline_calls"])
         if func.key.endswith("swc_utils/base.py:traverse") and func.key != self.cur_key and not force_inline:
             cb = [kwargs.get("enter"), kwargs.get("leave")]
             if any(x is not None and not isinstance(x, Callback) for x in cb) and not (cc is not None and cc.options.get("modular_traverse_ok")):
